@@ -371,6 +371,26 @@ uint64_t countYieldPoints(const std::function<void()>& body)
     return t_count;
 }
 
+const uint8_t* internInput(const uint8_t* data, size_t n)
+{
+    // Only one scheduled thread runs at a time and nothing in here is a yield point (t_inRt), so the pool needs no lock
+    // of its own - a lock would be a happens-before edge between the threads that the library does not have.
+    ++t_inRt;
+    static std::map<std::string, uint8_t*>* pool = new std::map<std::string, uint8_t*>();
+    std::string key(reinterpret_cast<const char*>(data), n);
+    auto it = pool->find(key);
+    if (it == pool->end())
+    {
+        uint8_t* b = static_cast<uint8_t*>(malloc(n ? n : 1));
+        for (size_t i = 0; i < n; ++i)
+            b[i] = data[i];
+        it = pool->emplace(std::move(key), b).first;
+    }
+    const uint8_t* r = it->second;
+    --t_inRt;
+    return r;
+}
+
 }  // namespace sched
 
 // ------------------------------------------------------------------------------------------------ compiler callbacks
